@@ -24,7 +24,10 @@ def leaf_domain(tier):
     byts += [b'\\u0041', b'\\U00000041', b'\\N{DASH}', b'\\\\u0041']
   others = [None, True, False, pool.Color.RED, {1, 2}, frozenset({'a'}), slice(1, None, 2),
             pool.Pt(1, 2), (), [], {}, {'k': (1,)}, {1: 'a', 'b': 2}, {(1, 2): 'tuplekey'},
-            pool.fb, pool.Cls, int, fdl.NO_VALUE, complex(1, 2), 1j]
+            pool.fb, pool.Cls, int, fdl.NO_VALUE, complex(1, 2), 1j,
+            # values whose type subclasses a JSON primitive type: same type after the round trip, or loud
+            pool.Level.HIGH, pool.Perm.R | pool.Perm.W, pool.Mode.TRAIN, pool.Label('cat'), pool.Ratio(0.5),
+            pool.Count(3), {pool.Level.LOW: 'enum key'}, {pool.Label('k'): 1}, pool.Span(1, 2), pool.LabelledPt(3)]
   return ([('int', v) for v in ints] + [('float', v) for v in floats] + [('str', v) for v in strs]
           + [('bytes', v) for v in byts] + [('other', v) for v in others])
 
